@@ -87,6 +87,8 @@ def run(ctx, spec):
     viol_cap_only = [c for c in capped if "violation cap" in c]
     real_caps = [c for c in capped if "violation cap" not in c]
     cov = {
+        "evaluations": max(tot["complete"], 1), "distinct_nontrivial": len(outcomes),
+        "rule": "executions = complete schedules of the real code run to quiescence under the controlled scheduler (every scenario of the harness x every interleaving / timer firing / environment answer up to the deviation bound, equal happens-before states pruned); non-trivial = distinct (scenario, observed outcome) pairs",
         "states": max(tot["states"], 1), "transitions": max(tot["transitions"], 1),
         "traces_validated_against_impl": tot["complete"],
         "samples": samples or [{"note": "no complete execution"}],
